@@ -92,6 +92,9 @@ func rerunnerClosures(fn *ssa.Function) []*ssa.Function {
 
 func c17(c *an.Ctx) {
 	p := c.P
+	c.Check("R-BOOL", "subscription lifecycle decisions: a subscription ends (closeSubscription) exactly when its first run fails or it is cancelled, a mutation always ends after one run; reruns that fail are retried, not ended (decision tables shared with C16)", 4, func(o *an.O) {
+		ruleHandlerTables(c, o)
+	})
 	gfuncs := func() []*ssa.Function { return p.ModuleFuncs(func(rel string) bool { return rel == gq }) }
 
 	c.Check("R-DOM+R-LOCK", "every insert into conn.subscriptions follows a duplicate-id check in the same critical section", 2, func(o *an.O) {
